@@ -15,4 +15,16 @@ CHECKS = {
     ),
 }
 
+CHECKS["C13"] = dict(
+        src="checks/c13.cpp", cfg="rel", link="static", engine="A-case-explorer",
+        category="exploration", design_ref="DESIGN.md section 4, C13",
+        technique="bounded-exhaustive enumeration of aliasing patterns x shapes on the real code, differential against the out-of-place call and a byte-exact model",
+        text="Every listed aliasing pattern (res==a, res==b, res==a==b; idft over its own input; pointwise r==a, r==b, r==a==b) is "
+             "executed for every (op, N, module type, cfg, limb counts in {0..3}, stride, p) of the box and compared bit for bit with the "
+             "same call on a separate output buffer and with the exact model image; bytes outside the declared output and inputs "
+             "outside the aliased extent must be unchanged.",
+        note="Aliasing = same pointer and same stride; bounded box; the reference is the library's own out-of-place call plus the "
+             "harness model (definition of the op).",
+)
+
 NOT_YET = {}
